@@ -117,6 +117,18 @@ def _lib_dense(v, di, dj):
     return np.asarray(v, dtype=object)
 
 
+def _same_entries(A, B):
+    """Syntactic identity of two SymC arrays (same z3 terms, same denominators)."""
+    A, B = np.asarray(A, dtype=object), np.asarray(B, dtype=object)
+    if A.shape != B.shape:
+        return False
+    for x, y in zip(A.ravel(), B.ravel()):
+        x, y = symc.lift(x), symc.lift(y)
+        if not (x.re.eq(y.re) and x.im.eq(y.im) and x.den == y.den):
+            return False
+    return True
+
+
 def c18(cfg):
     from pymablock.series import BlockSeries, cauchy_dot_product, one, zero
 
@@ -129,11 +141,19 @@ def c18(cfg):
         tables = _factor_table(cfg)
     else:
         # X^dagger X  or  X^dagger B X  (B Hermitian): tables derived from X (and B)
-        base = dict(cfg, blockdims=[dims[-2], dims[-1]], pattern={})
+        xpat = {}
+        if cfg.get("x_unit_zeroth"):
+            # the documented use of the sentinels: X = 1 + X' (identity on the diagonal blocks at zeroth order, nothing off-diagonal)
+            assert dims[-2] == dims[-1]
+            zo_s = ".".join(["0"] * npar)
+            for i in range(len(dims[-1])):
+                for j in range(len(dims[-1])):
+                    xpat[f"0,{i},{j},{zo_s}"] = "O" if i == j else "Z"
+        base = dict(cfg, blockdims=[dims[-2], dims[-1]], pattern=xpat)
         X = _factor_table(base)[0]
         Xd = {}
         for (i, j, *o), v in X.items():
-            Xd[(j, i, *o)] = symc.dagger(v)
+            Xd[(j, i, *o)] = v if isinstance(v, str) else symc.dagger(v)
         if mode == "XdX":
             tables = [Xd, X]
         else:
@@ -161,8 +181,12 @@ def c18(cfg):
     herm_flags = [False] if mode == "plain" else [False, True]
     rec.sample = {"config": cfg, "n_symbolic_reals": None}
     results = {}
+    # pristine copies: the oracle never reads the arrays that were handed to the library, and the factors must come back unmodified
+    pristine = [{k: (v.copy() if isinstance(v, np.ndarray) else v) for k, v in tab.items()} for tab in tables]
+    handed = tables
+    tables = pristine
     for hf in herm_flags:
-        series = [_to_series(tables[t], shapes[t], npar, name=f"F{t}") for t in range(nf)]
+        series = [_to_series(handed[t], shapes[t], npar, name=f"F{t}") for t in range(nf)]
         prod = cauchy_dot_product(*series, hermitian=hf)
         for idx in requests:
             try:
@@ -179,8 +203,8 @@ def c18(cfg):
             di, dj = dims[0][idx[0]], dims[-1][idx[1]]
             libd = _lib_dense(lib, di, dj)
 
-            def replay(model, idx=idx, hf=hf):
-                return _replay(cfg, tables, dims, shapes, npar, idx, hf, model)
+            def replay(model, idx=idx, hf=hf, prefix=tuple(requests[: requests.index(idx)])):
+                return _replay(cfg, tables, dims, shapes, npar, idx, hf, model, prefix=prefix)
 
             v = rec.oblige(
                 f"product{idx} hermitian={hf}", libd, ref,
@@ -189,6 +213,25 @@ def c18(cfg):
             if v != "structural":
                 rec.nontrivial = True
             results[(hf, idx)] = libd
+        # the factors' own elements are never modified by evaluating the product (values handed in by the caller)
+        modified = []
+        for t in range(nf):
+            for k, v0 in pristine[t].items():
+                if isinstance(v0, str):
+                    continue
+                cur = series[t][k]
+                if cur is not handed[t][k] or not _same_entries(handed[t][k], v0):
+                    modified.append([t, list(k)])
+        if modified:
+            rec.direct_violation(f"evaluating the product (hermitian={hf}) modified elements of its factors", f"factors-modified:nf={nf}:mode={mode}:hermitian={hf}",
+                                 {"factor_elements": modified[:6], "hermitian_flag": hf, "note": "cached / caller-owned elements of the factor series changed in place"}, reproduced=True)
+            # restore for the next flag
+            for t in range(nf):
+                for k, v0 in pristine[t].items():
+                    if not isinstance(v0, str):
+                        handed[t][k] = v0.copy()
+        else:
+            rec.discharged(f"factor elements unmodified after all product requests (hermitian={hf})", "confirmed")
     rec.sample["n_symbolic_reals"] = len(symc.CTX.vars)
     # call-log obligation (concrete): in a 2-factor product an element of the lazily evaluated factor is requested
     # only if a complementary element of the other factor is not declared absent.
@@ -244,7 +287,7 @@ def c18(cfg):
     return rec
 
 
-def _replay(cfg, tables, dims, shapes, npar, idx, hf, model):
+def _replay(cfg, tables, dims, shapes, npar, idx, hf, model, prefix=()):
     """Concrete numpy run of the real cauchy_dot_product at the model point; oracle in plain numpy."""
     from pymablock.series import BlockSeries, cauchy_dot_product, one, zero
 
@@ -260,7 +303,15 @@ def _replay(cfg, tables, dims, shapes, npar, idx, hf, model):
     for t in range(nf):
         data = {k: (zero if isinstance(v, str) and v == "Z" else one if isinstance(v, str) else v) for k, v in ntab[t].items()}
         series.append(BlockSeries(data=data, shape=shapes[t], n_infinite=npar))
-    lib = cauchy_dot_product(*series, hermitian=hf)[idx]
+    prod = cauchy_dot_product(*series, hermitian=hf)
+    oracle_tab = [{k: (v.copy() if isinstance(v, np.ndarray) else v) for k, v in tab.items()} for tab in ntab]
+    for earlier in prefix:  # the same request history as in the symbolic run
+        try:
+            prod[earlier]
+        except Exception:  # noqa: BLE001
+            pass
+    lib = prod[idx]
+    ntab = oracle_tab
     i, j, *order = idx
     di, dj = dims[0][i], dims[-1][j]
     lib = np.zeros((di, dj)) if lib is zero else (np.eye(di) if lib is one else np.asarray(lib))
@@ -354,7 +405,12 @@ def configs(tier, seed):
         add(blockdims=[[1, 1], [2, 1], [2, 1], [1, 1]], mode="XdBX", schedule=sched)
         add(blockdims=[[1, 1], [1, 1], [1, 1]], mode="XdX", nparams=2, schedule=sched)
         add(blockdims=[[1, 1], [1, 1], [1, 1], [1, 1]], mode="XdBX", nparams=2, schedule=sched)
+    for sched in ("asc", "desc", "rand1"):
+        add(blockdims=[[1, 2], [1, 2], [1, 2]], mode="XdX", schedule=sched, x_unit_zeroth=True)
+        add(blockdims=[[1, 1], [1, 1], [1, 1]], mode="XdX", nparams=2, schedule=sched, x_unit_zeroth=True)
+        add(blockdims=[[2, 1], [2, 1], [2, 1], [2, 1]], mode="XdBX", schedule=sched, x_unit_zeroth=True)
     if tier == "thorough":
+        add(blockdims=[[1, 1, 2], [1, 1, 2], [1, 1, 2]], mode="XdX", request_order=3, factor_order=2, x_unit_zeroth=True)
         add(blockdims=[[1, 2, 1], [2, 1, 1], [1, 1, 2]], request_order=3, factor_order=2)
         add(blockdims=[[2, 2]] * 4, request_order=3, factor_order=1)
         add(blockdims=[[1, 1]] * 3, nparams=3, request_order=3)
